@@ -62,6 +62,27 @@ CHECKS = {
    technique="differential runtime monitor: same script executed at decode level nothing, maximum, random and with a level change injected at every position; full observation records (bytes+virtual timestamps, results+instants, handler log, state, session end) must be equal",
    text="Server scripts (C01/C17 generators re-partitioned with gaps, level change at every chunk gap incl. mid-frame) and client scripts (1-8 requests with genuine/exception/bad/never/split/stale replies, level change before each request and one millisecond into each outstanding transaction), with a formatting subscriber so that all decode paths execute.",
    note="Only the decode-level command itself is excluded from the record."),
+
+ "C09": dict(engine="net", cat="fault_enumeration", design="3/C09",
+   technique="fault/configuration enumeration under a runtime monitor: every cell of the TLS grid is a real handshake between the rodbus endpoint and an independent TLS stack (CPython ssl/OpenSSL peer), judged by a truth table; handler and authorization logs must stay empty in refused cells",
+   text="The grid {min 1.2,1.3} x {authority,self-signed} x {authz,no authz} x {server,client role} x peer offers {1.2 only,1.3 only,both} x certificate {valid, wrong authority/other certificate, wrong name, expired, not yet valid, role-less, other role} is enumerated completely (198 applicable cells); the peer sends a Modbus write right after its own Finished and plaintext Modbus is sent to the TLS port. Negotiated version and the role delivered to the authorization handler are checked.",
+   note="Trusts CPython's ssl module / OpenSSL as the independent peer and the fixture PKI in fixtures/pki (minted by mint.sh). Validity is judged at today's clock only; certificates with two role extensions are not tested."),
+ "C13": dict(engine="net", cat="exploration", design="3/C13",
+   technique="online trace automaton on the connection-state listener stream with the listener callback used as a lock-step gate; accept counter, request-result and JoinHandle monitors",
+   text="The real TCP client task runs against a harness-owned listener; at every state notification the task is parked while one user event (enable, disable, shutdown, drop handles, submit) and the environment for the next attempt (refused, accept+close, accept+garbage, accept+silent, served) are injected. Checked: legal transitions, expected successor when nothing is pending, Disabled after disable, no accept while Disabled, no-connection for requests submitted while down, Shutdown once and last, handles report shutdown, task terminates.",
+   note="Wall-clock only as watchdog. A request queued at the Connecting gate may legitimately be served when the connect completes in its first poll (measured and reported). The serial (pty) analogue is not part of the quick tier."),
+ "C14": dict(engine="net", cat="exploration", design="3/C14",
+   technique="model comparison of the public strategy object over enumerated call sequences (panic = violation) + runtime monitor with a logging wrapper strategy on the real TCP client task (call-log grammar, announced delay == returned value, measured wait >= delay)",
+   text="Strategy object: all (min,max) pairs of a lattice up to Duration::MAX, all sequences over {fail, disconnect, reset} up to length 7 (quick) / 9 (thorough) plus runs of 70/130 failures. Task level: outcome sequences of 2-10 over {refused, accepted then closed, accepted then garbage} with min 20 ms / max 160 ms.",
+   note="Pairs with min > max are excluded (statement is contradictory there). Only the lower bound of a wait is a verdict."),
+ "C15": dict(engine="net", cat="exploration", design="3/C15",
+   technique="black-box history checker: alive/closed vector of real sockets after every event compared with an ordered-list model of the session tracker",
+   text="Histories of 5-30 events over {connect, client close, request, malformed header, set decode level, shutdown, drop handle} with max_sessions 0..4 against the real TCP server task; sentinel requests with unique transaction ids decide alive, EOF/reset decides closed.",
+   note="A discrepancy is reported only if it reproduces with a 10x longer grace for the server to notice closed peers. Connections stuck inside a TLS handshake are out of scope (recorded in DESIGN.md)."),
+ "C16": dict(engine="net", cat="exploration", design="3/C16",
+   technique="black-box monitor: connections from chosen loopback source addresses to real servers (TCP, TLS, TLS+authz; Rust API and C ABI) judged by an independent matcher; three-valued oracle over enumerated wildcard strings",
+   text="Filters: any, exact v4/v6, sets of 1-5 mixed addresses, wildcards with literal/'*' fields on a boundary lattice; sources 127.a.b.c and ::1. Served = sentinel reply / completed handshake and Modbus reply through an independent TLS peer; refused = EOF before any byte. Parser: every string over a 12-symbol alphabet up to length 5 (quick) / 7 (thorough) plus grammar-generated strings.",
+   note="The C-ABI variants (rodbus_server_create_tcp/_tls/_tls_with_authz, rodbus_address_filter_*) run in the ffi engine as part of this check. '+1' and leading zeros in a field are don't-care."),
 }
 
 NOT_YET = {
